@@ -210,6 +210,12 @@ func (c *connection) onProcess(onConnect OnConnect, onRequest OnRequest) (proces
 				}
 			}
 			c.unlock(connecting)
+			// the connection may have been closed between the IsActive check above and the
+			// unlock: the closer's onDisconnect could not get the connecting lock then and
+			// left the callback to us
+			if !c.IsActive() {
+				c.onDisconnect()
+			}
 		}
 	START:
 		// The `onRequest` must be executed at least once if conn have any readable data,
